@@ -703,7 +703,6 @@ func execMux(t *testing.T, plan *simkit.Plan) *simkit.Result {
 	})
 	res.NonTrivial = nontrivial
 	res.Fingerprint = simkit.Digest(res.JournalHash, fp)
-	res.SimNanos = 0
 	for _, l := range res.JournalTail {
 		_ = l
 	}
